@@ -1,2 +1,34 @@
-(* C06 — property theorems (being built). *)
-From Klog Require Import Base.Prelude Model.Lines Model.Parser.
+(* C06 — no file content can crash klog: parsing is total.
+   Property theorems only; each is closed by [exact <lemma>] and followed by Print Assumptions.
+   The model is the parser after the fixes F1, F2, F3, F9, F10 (see Model/Lines.v, Model/Parser.v); every
+   panic site of the Go code is an explicit [Crash] of the model, so "never Crash" is "no reachable panic".
+   Not here: render_errors_total, evaluate_total (renderer / evaluation models). *)
+From Klog Require Import Base.Prelude Base.Utf8 Model.Record Model.Lines Model.Parser Proofs.Lines Proofs.Parser.
+Open Scope nat_scope.
+
+(* lines[0] of a block always exists: parse() does not panic on any block the splitter produces *)
+Theorem C06_parse_record_no_crash : forall (ls : list line) (b : block),
+  In b (blocks_of_lines ls) -> forall c, parse_record b <> Crash c.
+Proof. exact parse_record_no_crash. Qed.
+Print Assumptions C06_parse_record_no_crash.
+
+(* for EVERY byte string the parser returns either records, one block per record (all blocks of the text),
+   and no errors — or no records and at least one error *)
+Theorem C06_parse_text_total : forall s : bytes,
+  (exists rs bs, parse_text s = Ok (Parsed rs bs) /\ length rs = length bs /\ bs = blocks_of s) \/
+  (exists es, parse_text s = Ok (Failed es) /\ es <> []).
+Proof. exact parse_text_total. Qed.
+Print Assumptions C06_parse_text_total.
+
+(* in particular: never a panic, never a bare error *)
+Theorem C06_parse_text_never_crashes : forall s : bytes,
+  (forall c, parse_text s <> Crash c) /\ (forall e, parse_text s <> Err e).
+Proof. exact parse_text_never_crashes. Qed.
+Print Assumptions C06_parse_text_never_crashes.
+
+(* non-vacuity: both alternatives occur — example_text (invalid UTF-8, CRLF, lone CR, no final newline)
+   parses to 2 records with 2 blocks, example_faulty to 5 errors *)
+Example C06_nonvacuous :
+  (exists rs bs, parse_text example_text = Ok (Parsed rs bs) /\ length rs = 2 /\ length bs = 2) /\
+  (exists es, parse_text example_faulty = Ok (Failed es) /\ length es = 5).
+Proof. split; [eexists _, _|eexists]; vm_compute; repeat split. Qed.
